@@ -33,7 +33,7 @@ func (c03) Meta() fw.Meta {
 			"'supplied last' = greatest (timestamp, supply index) among the points of one slot (batches are time-ordered first; DESIGN.md section 1.5)",
 			"future-dated points in batches are outside the property's quantifier and are not generated",
 		},
-		Obligations: []string{"single_accept_at_boundary", "single_reject_at_boundary", "single_reject_future", "batch_one_stale_plus_fresh", "batch_only_old", "batch_equal_timestamp_dups", "batch_multi_ts_same_slot", "batch_lap_collision", "batch_dropped_points", "batch_stored_points", "permutation_twins_compared", "best_routed_to_coarser", "empty_batch", "wrapper_update_calls", "wrapper_updatemany_calls", "batch_ancient_points"},
+		Obligations: []string{"single_accept_at_boundary", "single_reject_at_boundary", "single_reject_future", "batch_one_stale_plus_fresh", "batch_only_old", "batch_equal_timestamp_dups", "batch_multi_ts_same_slot", "batch_lap_collision", "batch_dropped_points", "batch_stored_points", "permutation_twins_compared", "best_routed_to_coarser", "empty_batch", "wrapper_update_calls", "wrapper_updatemany_calls", "batch_ancient_points", "batch_nan_valued_points_stored"},
 	}
 }
 
@@ -97,6 +97,7 @@ func (c03) Run(c *fw.Ctx) {
 	}
 	sawAcc, sawRej, sawDrop, sawStore := false, false, false, false
 
+	hostile := c.Index%2 == 1 // NaN payloads and infinities are values like any other: a supplied point is stored whatever it carries
 	// ---- (a) single updates across every boundary
 	ages := []int64{0, 1, l.MaxRet() - 1, l.MaxRet(), l.MaxRet() + 1, -1}
 	for _, a := range l.Archs {
@@ -112,7 +113,7 @@ func (c03) Run(c *fw.Ctx) {
 			if t < 1 {
 				continue
 			}
-			bits := genValueBits(r, false)
+			bits := genValueBits(r, hostile)
 			pre := s.raw
 			var err error
 			if tg == -1 && r.Intn(2) == 0 {
@@ -191,7 +192,7 @@ func (c03) Run(c *fw.Ctx) {
 		var pts []model.PtBits
 		fresh := func(n int) {
 			for i := 0; i < n; i++ {
-				pts = append(pts, model.PtBits{T: uint32(inRangeTime(r, s.now, retT)), Bits: genValueBits(r, false)})
+				pts = append(pts, model.PtBits{T: uint32(inRangeTime(r, s.now, retT)), Bits: genValueBits(r, hostile)})
 			}
 		}
 		old := func(n int) {
@@ -214,7 +215,7 @@ func (c03) Run(c *fw.Ctx) {
 					t = s.now - retT - r.Int63n(l.MaxRet()+int64(l.MaxStep()))
 				}
 				if t >= 1 {
-					pts = append(pts, model.PtBits{T: uint32(t), Bits: genValueBits(r, false)})
+					pts = append(pts, model.PtBits{T: uint32(t), Bits: genValueBits(r, hostile)})
 				}
 			}
 		}
@@ -235,14 +236,14 @@ func (c03) Run(c *fw.Ctx) {
 		case 2: // only fresh, with duplicates and same-slot timestamps
 			fresh(1 + r.Intn(20))
 			p := pts[r.Intn(len(pts))]
-			pts = append(pts, model.PtBits{T: p.T, Bits: genValueBits(r, false)}, model.PtBits{T: p.T, Bits: genValueBits(r, false)})
+			pts = append(pts, model.PtBits{T: p.T, Bits: genValueBits(r, hostile)}, model.PtBits{T: p.T, Bits: genValueBits(r, hostile)})
 			c.Count("batch_equal_timestamp_dups", 1)
 			al := model.AlignDown(int64(p.T), ar.Step)
 			if ar.Step > 1 {
 				for j := 0; j < 3; j++ {
 					t := al + r.Int63n(int64(ar.Step))
 					if t <= s.now && t > s.now-retT {
-						pts = append(pts, model.PtBits{T: uint32(t), Bits: genValueBits(r, false)})
+						pts = append(pts, model.PtBits{T: uint32(t), Bits: genValueBits(r, hostile)})
 						c.Count("batch_multi_ts_same_slot", 1)
 					}
 				}
@@ -257,7 +258,7 @@ func (c03) Run(c *fw.Ctx) {
 			lo := s.now - retT + 1
 			hiT := model.AlignDown(lo, ar.Step) + retT
 			if hiT <= s.now {
-				pts = append(pts, model.PtBits{T: uint32(lo), Bits: genValueBits(r, false)}, model.PtBits{T: uint32(hiT), Bits: genValueBits(r, false)})
+				pts = append(pts, model.PtBits{T: uint32(lo), Bits: genValueBits(r, hostile)}, model.PtBits{T: uint32(hiT), Bits: genValueBits(r, hostile)})
 				c.Count("batch_lap_collision", 1)
 			}
 		case 4: // empty
@@ -326,6 +327,13 @@ func (c03) Run(c *fw.Ctx) {
 			}
 			if i > 0 && named < 0 && len(routed[i]) > 0 {
 				c.Count("best_routed_to_coarser", 1)
+			}
+		}
+		for i := range routed {
+			for _, p := range routed[i] {
+				if v := math.Float64frombits(p.Bits); v != v {
+					c.Count("batch_nan_valued_points_stored", 1)
+				}
 			}
 		}
 		c.Count("batch_stored_points", int64(nrouted))
